@@ -34,6 +34,7 @@ def rnd_reply(rng, code, text=None):
 def cuts(rng):
     return "" if rng.chance(2, 3) else ",c" + ".".join(str(rng.choice([1, 2, 3, 5, 7, 40])) for _ in range(rng.range(1, 4)))
 
+COMPLETIONS = [226, 226, 226, 250, 426, 451, 552, 425]      # RFC 959 completion replies of a transfer (positive and negative)
 POS1 = [125, 150]
 POS2 = [200, 226, 250, 257]
 NEG = [425, 426, 450, 451, 452, 500, 501, 502, 503, 530, 550, 552, 553]
@@ -185,14 +186,14 @@ def op_put(rng, cfg, verb=None, setup_code=None, main_code=None, cancel=None, si
     src = "ok" if src_fail is None else "fail%d" % src_fail
     return "put:%s:%s:%s:%s:%s:%s@" % (verb, H(b"up.bin"), spec, chop, src, cb) + "/".join(groups)
 
-def op_list(rng, cfg, setup_code=None, main_code=None, names=None, text=None):
+def op_list(rng, cfg, setup_code=None, main_code=None, names=None, text=None, completion=226):
     groups = [setup_groups(rng, cfg, setup_code)]
     if text is None:
         text = rng.choice([b"", b"a\r\nb\r\n", b"a\nb\n", b"drwxr-xr-x 2 0 0 4096 Jan 1 dir\r\n-rw-r--r-- 1 0 0 12 Jan 1 f.txt\r\n", b"x\r\r\ny", b"\r\n\r\n"])
     if setup_code is None or setup_code < 400:
         mc = main_code if main_code is not None else rng.choice(POS1)
         if mc < 400:
-            groups.append(",".join([rnd_reply(rng, mc), rnd_reply(rng, 226), "Dsend:h%s::c" % text.hex()]) + cuts(rng))
+            groups.append(",".join([rnd_reply(rng, mc), rnd_reply(rng, completion), "Dsend:h%s::c" % text.hex()]) + cuts(rng))
         else:
             groups.append(rnd_reply(rng, mc))
     path = "-" if rng.chance(1, 2) else H(rng.choice([b"dir", b"", b"a b"]))
@@ -226,11 +227,11 @@ def random_history(rng, prop, nops=None, cfg=None, with_transfers=True, login=Tr
             elif k == 3: ops.append(op_rename(rng, cfg))
             else: ops.append(op_simple(rng, cfg))
         elif r < 10:
-            ops.append(op_get(rng, cfg))
+            ops.append(op_get(rng, cfg, completion=rng.choice(COMPLETIONS)))
         elif r < 13:
-            ops.append(op_put(rng, cfg))
+            ops.append(op_put(rng, cfg, completion=rng.choice(COMPLETIONS)))
         elif r < 15:
-            ops.append(op_list(rng, cfg))
+            ops.append(op_list(rng, cfg, completion=rng.choice(COMPLETIONS)))
         elif r < 16:
             ops.append(op_get(rng, cfg, main_code=rng.choice(NEG)))
         elif r < 17:
